@@ -49,6 +49,7 @@ def units(tier, seed):
             out.append({"stage": "lganm", "p": p, "codes": part})
             out.append({"stage": "anm", "p": p, "codes": part})
     out.append({"stage": "large"})
+    out += [{"stage": "anm-wide", "k": k, "n": 8} for k in range(8)]
     if tier == "thorough":
         dags = [c for c, _ in SP.dag_list(4)][::3]
         for part in split_list(dags, 181):
@@ -144,8 +145,9 @@ def build_anm(p, W, means, variances):
     return sempler.ANM(W, assignments, noises)
 
 
-def check_anm(p, code, lab, assign, style, n, rs):
-    ch, _ = G.decode(p, code)
+def check_anm(p, code, lab, assign, style, n, rs, ch=None):
+    if ch is None:
+        ch, _ = G.decode(p, code)
     W, means, variances = SP.model(p, ch, lab, "float")
     lib, ora = SP.assignment_dicts(p, assign, "tuple" if style == "callable" else "float")
     d = "ANM(W=%s, linear assignments, normal noise means=%s variances=%s).sample(%d, do=%s, noise=%s, shift=%s) vs LGANM" % (
@@ -210,9 +212,9 @@ def run_unit(unit):
             if light:
                 combos = (("generic", "float", "tuple"),)
             elif _TIER[0] == "quick":
-                combos = (("generic", "float", "tuple"), ("cancel", "floatzero", "float"))
+                combos = (("generic", "float", "tuple-rev"), ("cancel", "floatzero", "float"))
             else:
-                combos = tuple((l, c, s) for l, c in (("generic", "float"), ("cancel", "floatzero")) for s in ("tuple", "float"))
+                combos = tuple((l, c, s) for l, c in (("generic", "float"), ("cancel", "floatzero")) for s in ("tuple", "float", "tuple-rev"))
             for lab, cfg, style in combos:
                 if True:
                     for assign in itertools.product(range(8), repeat=p):
@@ -248,6 +250,17 @@ def run_unit(unit):
                         absorb(acc, "anm", {"p": p, "code": code, "lab": lab, "assign": list(assign), "style": style, "n": n, "rs": rs}, f, ne, dec, any(assign))
                         acc.extra["anm_configs_p%d" % p] += 1
                         acc.outcome(["anm", code, assign[:2], n])
+    elif st == "anm-wide":
+        # 10-node colliders whose parents mix node indices below and above 8 (set iteration order of the parents)
+        from mc.checks import _g
+        fam = _g.wide_targeted()
+        for k in range(unit["k"], len(fam), unit["n"]):
+            for lab, assign_sparse in (("generic", {}), ("generic", {4: 1, 8: 4}), ("cancel", {0: 2})):
+                assign = tuple(assign_sparse.get(j, 0) for j in range(_g.WIDE_P))
+                f, ne, dec = check_anm(_g.WIDE_P, None, lab, assign, "callable", 1, None, ch=fam[k])
+                absorb(acc, "anm-wide", {"k": k, "lab": lab, "assign": list(assign)}, f, ne, dec, True)
+                acc.extra["anm_wide_configs"] += 1
+                acc.outcome(["anm-wide", k, lab])
     else:
         # the "all sample sizes" direction: a few larger n
         code3 = SP.dag_list(3)[-1][0]
@@ -264,6 +277,9 @@ def run_unit(unit):
 
 
 def replay(kind, case):
+    if kind == "anm-wide":
+        from mc.checks import _g
+        return check_anm(_g.WIDE_P, None, case["lab"], tuple(case["assign"]), "callable", 1, None, ch=_g.wide_targeted()[case["k"]])[0]
     if kind == "nd":
         return check_nd(case["p"], case["B"], case["mu"], case["n"], case["rs"])[0]
     if kind == "lganm":
@@ -279,7 +295,7 @@ def describe(tier, seed):
                 "in {None,0,1}; LGANM.sample for every DAG p<=3 x {generic float, cancelling weights + a zero variance} x all 8^p intervention assignments x {tuple, scalar} "
                 "styles (n in {1,2}); ANM with linear assignments and noise.normal for every DAG p<=3 x 2 labelings x all 7^p assignments without a bare shift+noise "
                 "overlap x {noise.normal callables, constants}: law must equal the LGANM population law under the same interventions; n in {10, 50} spot "
-                "configurations; thorough adds every third 4-node DAG with <=2 intervened variables. Oracle: shape (n,p); X(0) = 1 mu_pop^T; sum_c vec R_c vec R_c^T = "
+                "configurations; 80 targeted 10-node colliders whose parents mix node indices below and above 8 (ANM vs LGANM); thorough adds every third 4-node DAG with <=2 intervened variables. Oracle: shape (n,p); X(0) = 1 mu_pop^T; sum_c vec R_c vec R_c^T = "
                 "I_n (x) Sigma_pop; variance-0 targets constant. mu_pop, Sigma_pop are sample(population=True) under the same interventions. non-trivial: intervened / correlated",
         "exhaustive": True,
         "bounds": {"p_max": 4 if tier == "thorough" else 3, "n_exhaustive": 3, "n_spot": [10, 50]},
